@@ -44,6 +44,11 @@ pub fn run(ctx: &mut Ctx) {
             4 => 128,
             5 => 4096,
             6 => rng.range(2, 300),
+            7 => {
+                // shortly before a multiple of 512 / 4096: the 127 header bytes straddle a block boundary
+                let page = *rng.pick(&[512u64, 4096]);
+                page * rng.range(1, 40) - rng.range(1, 126)
+            }
             _ => rng.range(1, 1 << 20),
         };
         // pre-fill: empty, shorter than P, exactly P, or long enough to exceed the archive
@@ -60,7 +65,12 @@ pub fn run(ctx: &mut Ctx) {
         let mat = json!({"archive": l.describe(), "start_position": p, "prefill_len": prefill_len, "api": api});
         // a third of the streams accept only part of most writes (the property holds for every Write + Seek)
         let short_writes = i % 3 == 1 && l.tiles.values().map(|c| c.len()).sum::<usize>() < (4 << 20);
-        let wsched = Sched::Random(crate::rng::Rng::new(rng.next()), *rng.pick(&[50usize, 3000]));
+        let wsched = match rng.below(4) {
+            0 => Sched::Random(crate::rng::Rng::new(rng.next()), 50),
+            1 => Sched::Random(crate::rng::Rng::new(rng.next()), 3000),
+            2 => Sched::Page(4096),
+            _ => Sched::Page(512),
+        };
         if short_writes {
             ctx.count("streams_with_short_writes");
         }
